@@ -310,12 +310,24 @@ def close(got, want, rtol=RTOL, atol=ATOL):
 STATS = {"max_rel_err": 0.0, "max_q_err": 0.0}
 
 
+POSITIONAL = {"dchisq": ["df"], "pchisq": ["df"], "dexp": ["rate"], "pexp": ["rate"], "dgamma": ["shape", "rate"],
+              "pgamma": ["shape", "rate"], "dnorm": ["mean", "sd"], "pnorm": ["mean", "sd"], "dunif": ["min", "max"],
+              "punif": ["min", "max"], "dpois": ["mu"], "ppois": ["mu"], "dbinom": ["size", "prob"], "pbinom": ["size", "prob"],
+              "dbeta": ["shape1", "shape2"]}
+
+
 def judge_dp(inp):
     """inp: fn (dexp...), fam, x, params (R-named; nbinom: size + prob|mu), flags (log, lower_tail)"""
     mp = mpctx()
     fn, fam = inp["fn"], inp["fam"]
-    st, got = call(fn, [inp["x"]], dict(inp["params"], **inp["flags"]))
-    desc = "%s(%r, %s)" % (fn, inp["x"], ", ".join("%s=%r" % kv for kv in list(inp["params"].items()) + list(inp["flags"].items())))
+    if inp.get("positional"):
+        # every argument by position, in the order of pygom's published signatures (pinned here: the order is part of the API)
+        args = [inp["x"]] + [inp["params"][k] for k in POSITIONAL[fn]] + [bool(inp["flags"].get("log", False))]
+        st, got = call(fn, args, {})
+        desc = "%s(%s)" % (fn, ", ".join(repr(a) for a in args))
+    else:
+        st, got = call(fn, [inp["x"]], dict(inp["params"], **inp["flags"]))
+        desc = "%s(%r, %s)" % (fn, inp["x"], ", ".join("%s=%r" % kv for kv in list(inp["params"].items()) + list(inp["flags"].items())))
     if st == "missing":
         return None
     if st == "raise":
@@ -648,6 +660,17 @@ CORPUS = [
     dict(kind="dp", fn="dpois", fam="pois", x=790, params=dict(mu=800.0), flags=dict(log=True)),
     dict(kind="dp", fn="dbinom", fam="binom", x=1010, params=dict(size=2000, prob=0.5), flags=dict(log=False)),
     dict(kind="dp", fn="dgamma", fam="gamma", x=148.0, params=dict(shape=300.0, rate=2.0), flags=dict(log=True)),
+    # arguments by position (the log flag last), end points of the support
+    dict(kind="dp", fn="dchisq", fam="chisq", x=3.0, params=dict(df=4.0), flags=dict(log=True), positional=True),
+    dict(kind="dp", fn="pchisq", fam="chisq", x=3.0, params=dict(df=4.0), flags=dict(log=True), positional=True),
+    dict(kind="dp", fn="dgamma", fam="gamma", x=1.3, params=dict(shape=2.5, rate=1.5), flags=dict(log=True), positional=True),
+    dict(kind="dp", fn="pnorm", fam="norm", x=0.3, params=dict(mean=1.0, sd=2.0), flags=dict(log=True), positional=True),
+    dict(kind="dp", fn="dunif", fam="unif", x=2.0, params=dict(min=-1.0, max=2.0), flags=dict(log=False)),
+    dict(kind="dp", fn="dunif", fam="unif", x=-1.0, params=dict(min=-1.0, max=2.0), flags=dict(log=True)),
+    dict(kind="dp", fn="punif", fam="unif", x=2.0, params=dict(min=-1.0, max=2.0), flags=dict(log=False)),
+    dict(kind="dp", fn="punif", fam="unif", x=-1.0, params=dict(min=-1.0, max=2.0), flags=dict(log=False)),
+    dict(kind="dp", fn="dbinom", fam="binom", x=5, params=dict(size=5, prob=0.3), flags=dict(log=False)),
+    dict(kind="dp", fn="dbeta", fam="beta", x=1.0, params=dict(shape1=2.0, shape2=1.0), flags=dict(log=False)),
     # boundary of the parameter space, arguments outside the support, parameters given as integers
     dict(kind="dp", fn="dpois", fam="pois", x=0, params=dict(mu=0.0), flags=dict(log=False)),
     dict(kind="dp", fn="dpois", fam="pois", x=0, params=dict(mu=0.0), flags=dict(log=True)),
@@ -730,6 +753,15 @@ def gen_inputs(rng, ndp, nq, nseed, ndist):
         P = gen_params("gamma", rng)
         out.append(dict(kind="dp", fn="dgamma", fam="gamma", x=float(rng.uniform(900.0, 3000.0)) / P["rate"], params=P,
                         flags=dict(log=True)))
+    for _ in range(max(2, ndp // 4)):                 # every argument by position; an end point of the support
+        fam = ["chisq", "exp", "gamma", "norm", "unif", "pois", "binom", "beta"][int(rng.integers(0, 8))]
+        P = gen_params(fam, rng)
+        fn = "dp"[int(rng.integers(0, 2))] + fam
+        if fn in POSITIONAL:
+            out.append(dict(kind="dp", fn=fn, fam=fam, x=gen_arg(fam, P, rng), params=P, flags=dict(log=bool(rng.random() < 0.7)), positional=True))
+        P = gen_params("unif", rng)
+        out.append(dict(kind="dp", fn="dp"[int(rng.integers(0, 2))] + "unif", fam="unif", x=P[["min", "max"][int(rng.integers(0, 2))]],
+                        params=P, flags={}))
     for _ in range(max(2, ndp // 4)):                 # parameters given as Python ints; arguments outside the support
         r = int(rng.integers(2, 9))
         x = float(rng.uniform(0.05, 2.0))
